@@ -1890,6 +1890,28 @@ def fixed_cases(ctx):
         except Exception as e:
             bad("copy_section raises %s: %s" % (type(e).__name__, str(e)[:80]), "copy_section variants",
                 type(e).__name__, "copies", "copy-raised")
+        # C20-section-handle-through-link: a Section fetched through `.metadata` (no parent) or `Section.link` (the linking
+        # section as parent) is copied like the same section fetched from its container - also when the linking
+        # section has a subsection of the same name
+        try:
+            lk = f.create_section("linker", "t")
+            lk.create_section("sub", "t").definition = "another section that is merely called sub"
+            lk.link = sub
+            blk = f.create_block("with-metadata", "t")
+            blk.metadata = sub
+            for label, h, dest in (("f2.copy_section(block.metadata)", blk.metadata, f2),
+                                   ("f.copy_section(block.metadata, name=…)", blk.metadata, f),
+                                   ("section.copy_section(other.link, name=…)", lk.link, s),
+                                   ("f2.copy_section(other.link, name=…)", lk.link, f2)):
+                c = dest.copy_section(h, name="via-link-%d" % len(dest.sections))
+                got = [c.definition, [x.name for x in c.props], [list(x.values) for x in c.props]]
+                want = [sub.definition, ["q"], [["x"]]]
+                if got != want:
+                    bad("copy_section of a Section handle fetched through a link copied another section", label, got,
+                        want, "complete-api")
+        except Exception as e:
+            bad("copy_section of a Section handle fetched through a link raises %s: %s" % (type(e).__name__, str(e)[:80]),
+                "copy_section(block.metadata) / copy_section(section.link)", type(e).__name__, "a copy", "copy-raised")
         # C20-create-property-returns-original
         try:
             p = s.props["p"]
